@@ -65,12 +65,28 @@ class Universe:
         return [self.T(x) for x in labs]
 
 
+TASK_FIELDS = ('id', 'name', 'resource', 'start', 'end', 'milestone', 'min_start', 'estimate', 'spent')
+_ABSENT = object()
+
+
+def public_fields(t, extra=()):
+    """documented fields of a task plus the custom attributes the workloads set, read with getattr (what to_dict() or
+    vars() additionally contain -- derived keys, book-keeping attributes -- is an implementation's own business)"""
+    out = []
+    for k in TASK_FIELDS + tuple(extra):
+        v = getattr(t, k, _ABSENT)
+        if v is not _ABSENT and not callable(v):
+            out.append((k, repr(v)))
+    return tuple(out)
+
+
+CUSTOM_NAMES = ('prio', 'extra', 'title', 'x', 'tag', 'flag', 'note', 'iteration', 'region', 'kpi_', 'team', 'stamp', 'owner')
+
+
 def _attrs(o):
-    try:
-        d = o.to_dict() if hasattr(o, 'to_dict') else {k: v for k, v in o.__dict__.items() if not k.startswith('_')}
-    except Exception as e:  # pragma: no cover
-        return 'to_dict raised ' + type(e).__name__
-    return tuple(sorted((k, repr(v)) for k, v in d.items()))
+    if hasattr(o, 'to_dict'):
+        return tuple(sorted(public_fields(o, CUSTOM_NAMES)))
+    return tuple(sorted((k, repr(v)) for k, v in o.__dict__.items() if not k.startswith('_') and k in CUSTOM_NAMES))
 
 
 def snap(u):
@@ -91,8 +107,7 @@ def snap(u):
     return s
 
 
-DOCUMENTED_FIELDS = {'id', 'name', 'resource', 'start', 'end', 'milestone', 'min_start', 'prio', 'extra', 'title', 'x', 'tag', 'flag',
-                     'note', 'iteration', 'region', 'kpi_'}
+DOCUMENTED_FIELDS = set(TASK_FIELDS) | set(CUSTOM_NAMES)
 
 
 def setlevel(s, owner=True):
@@ -641,6 +656,26 @@ def facade(u, holder):
 
 def execute(u, op):
     """perform the call; returns a JSON-able description of the return value"""
+    return _ret(u, _execute(u, op))
+
+
+def _ret(u, r):
+    from pjplan import Task as _T
+    if r is None or isinstance(r, (bool, int, float, str)):
+        return r
+    if isinstance(r, tuple) and len(r) == 2 and r[0] == 'newlabel':
+        return r
+    if isinstance(r, _T):
+        return ('task', u.L(r))
+    if isinstance(r, (list, tuple)) and all(isinstance(x, str) or x is None for x in r):
+        return list(r)
+    try:
+        return ('tasks', [u.L(x) for x in r])
+    except Exception:
+        return ('object', type(r).__name__)
+
+
+def _execute(u, op):
     k = op[0]
     if k == 'parent=':
         u.T(op[1]).parent = u.T(op[2])
